@@ -664,7 +664,7 @@ def compare_values():
     D1, D2, D2b = Sym('val', 'd1', True, 'datetime'), Sym('val', 'd2', True, 'datetime'), Sym('val', 'd2b', True, 'date')
     F, G, RX = Sym('val', 'f', True, 'function'), Sym('val', 'g', True, 'function'), Sym('val', 'rx', True, 'regex')
     rank = {'d1': 1, 'd2': 2, 'd2b': 2, 'f': 0, 'g': 0, 'rx': 0}
-    vals = [('null', None), ('false', False), ('true', True), ('-1', -1), ('1', 1), ('1.0', 1.0), ('2.5', 2.5), ("''", ''), ("'a'", 'a'), ("'b'", 'b'),
+    vals = [('null', None), ('false', False), ('true', True), ('-1', -1), ('1', 1), ('1.0', 1.0), ('2.5', 2.5), ('2**53 (int)', 2 ** 53), ('2**53 + 1 (int)', 2 ** 53 + 1), ('2.0**53 (float)', 2.0 ** 53), ("''", ''), ("'a'", 'a'), ("'b'", 'b'),
             ('datetime d1', D1), ('datetime d2', D2), ('date equal to d2', D2b), ('function f', F), ('function g', G), ('regex', RX),
             ('[]', []), ('[1]', [1]), ('[1, 2]', [1, 2]), ('[2]', [2]), ("[1, 'a']", [1, 'a']), ('[null]', [None]), ('[[1]]', [[1]]), ('[true]', [True]),
             ('{}', {}), ("{a:1}", {'a': 1}), ("{a:2}", {'a': 2}), ("{b:1,a:2} (insertion order b,a)", {'b': 1, 'a': 2}), ("{a:2,b:0}", {'a': 2, 'b': 0}), ("{a:1,c:0}", {'a': 1, 'c': 0}),
